@@ -123,7 +123,45 @@ func VerifC14SharedParser() {
 	})
 }
 
+// VerifC14HistoryParser: "every call returns exactly what it returns when run alone" for one parser
+// value: a call on a parser that already served another call (same host text under another scheme,
+// same or another path) returns what a fresh parser of the same configuration returns, including the
+// recorded validation errors. (With goroutines the earlier call is "another goroutine got there
+// first".) Catches per-parser memoisation keyed by less than what the result depends on.
+func VerifC14HistoryParser() {
+	hosts := []string{"EXAMPLE.com", "0x7F.1", "h", "[::1]", "a%41b", "1.2.3.4.", "xn--a"}
+	schemes := []string{"http", "foo", "https", "file", "a"}
+	h := hosts[vnd.Pick(len(hosts))]
+	w := vnd.Str(vnd.Len(vnd.Param("C14.KHistParser", 1, 2)))
+	inB := schemes[vnd.Pick(len(schemes))] + "://" + h + "/" + w
+	inA := schemes[vnd.Pick(len(schemes))] + "://" + h + "/x"
+	reporting := vnd.Bool()
+	mk := func() Parser {
+		if reporting {
+			return NewParser(WithReportValidationErrors())
+		}
+		return NewParser()
+	}
+	shared := mk()
+	if ub, eb := shared.Parse(inB); eb == nil {
+		_ = ub.Href(false)
+	}
+	u1, e1 := shared.Parse(inA)
+	u2, e2 := mk().Parse(inA)
+	s1, s2 := snapImpl(u1, e1), snapImpl(u2, e2)
+	vnd.Cover("history-second-call-succeeds", !s1.fail)
+	if d := verifCheckSnap(s2, s1); d != "" {
+		observeSnap("alone.", s2)
+		observeSnap("after.", s1)
+		vnd.Fail("C14: a call returns something else after another call was made on the same parser: " + d + " differs")
+	}
+	if e1 == nil && e2 == nil && len(u1.ValidationErrors()) != len(u2.ValidationErrors()) {
+		vnd.Fail("C14: a call records other validation errors after another call was made on the same parser")
+	}
+}
+
 func init() {
+	verifHarnesses["VerifC14HistoryParser"] = VerifC14HistoryParser
 	verifHarnesses["VerifC14SharedBaseConfigured"] = VerifC14SharedBaseConfigured
 	verifHarnesses["VerifC14SharedBase"] = VerifC14SharedBase
 	verifHarnesses["VerifC14SharedParser"] = VerifC14SharedParser
